@@ -18,11 +18,12 @@ NOT_APPLICABLE = {}
 
 CHECKS = {
     "C16": dict(
-        level="model_checking", engine="seq",
-        technique="explicit-state BFS over all offer sequences on the real ChannelMapping (model checking of the implementation)",
+        level="model_checking", engine="seq+sched",
+        technique="explicit-state BFS over all offer sequences on the real ChannelMapping; stateless DFS over goroutine schedules (deviation-bounded) of the real channel manager's concurrent collection starts with the assignment table observed at every scheduling point",
         text="Every offer sequence up to the depth bound, for every channel-count pair up to the size bound, is executed on the real util.ChannelMapping with the channel manager's own call protocol; the invariant (one image per key, images never change, load <= ceil(larger/smaller), injective for equal counts, quota leaves room for every key) is evaluated in every reached state.",
-        note="Bounded: channel counts <= 5 (6 thorough), offers <= 6 (8). The protocol driver mirrors startReadChannel/waitChannel; the manager itself is exercised in the C02 pipeline harness.",
-        parts=[part("mapping", "core", "util", "TestVerifC16Mapping", shards=(4, 16))],
+        note="Bounded: channel counts <= 5 (6 thorough), offers <= 6 (8). The protocol driver of the mapping part mirrors startReadChannel/waitChannel; the manager part runs the real channel manager under the schedule explorer (placement scenarios up to 3:2 / 2:3 channels, collections started concurrently, <= 2 (3) deviations) and reads the assignment table at every scheduling point.",
+        parts=[part("mapping", "core", "util", "TestVerifC16Mapping", shards=(4, 16)),
+               part("manager", "core", "reader", "TestVerifC16Manager", shards=(12, 16), budget=(150, 900), gomaxprocs=1)],
     ),
     "C14": dict(
         level="model_checking", engine="seq",
